@@ -438,9 +438,170 @@ class CopulaCouplingState(FunctionContract):
         return (False, worst)
 
 
-UNITS = [ProbabilityToRight(), CouplingState(), Telescoping(), DiffusionCoupling(), NextLevel(), CopulaCouplingState()]
+CS = "rpylib.process.coupling.couplingsde:"
+
+
+class SDENextLevel(FunctionContract):
+    """CouplingSDE.next_level: the coarse driver drift of the new level is the fine driver drift of the level just left
+    (whatever the level), the time-step cap is (h/2)^beta of the grid about to be refined, the driver coupling advances
+    exactly once (which refines the grid), and the new fine drift is read from the driver's NEW fine chain."""
+    prop = "C03"
+    target = CS + "CouplingSDE.next_level"
+    name = "CouplingSDE.next_level"
+
+    def configure(self, interp):
+        from pyvc import ctx
+        log = lambda ev: ctx.PATH.ghost.setdefault("log", []).append(ev)
+        interp.hooks[CS + "CouplingSDE.initialisation"] = lambda it, f, b: log(("initialisation", b["self"].fields["level"]))
+
+        def driver_next(it, f, b):
+            g = ctx.PATH.ghost
+            log(("driver.next_level", b["path_managers"], b["max_step_epsilon"], b["mc_paths"]))
+            b["self"].fields["fine_process"] = g["new_driver_fine"]
+        interp.hooks[CM + "CouplingMarkovChain.next_level"] = driver_next
+        interp.hooks["rpylib.process.markovchain.markovchain:MarkovChainProcess.process_drift"] = lambda it, f, b: b["self"].fields["_drift_tag"]
+        interp.hooks["rpylib.montecarlo.path:MCPath.update"] = lambda it, f, b: None
+        interp.hooks[LM + "LevyModel.blumenthal_getoor_index"] = lambda it, f, b: ctx.PATH.ghost["beta"]
+
+    def setup(self, vc, case):
+        g = vc.ghost
+        h, beta, lvl = vc.real("h"), vc.real("beta"), vc.int("level")
+        vc.assume(And(h > 0, beta > 0, beta < 2, lvl >= 0))
+        d_h, d_2h, d_new, d_level0 = vc.real("mc_drift_h"), vc.real("mc_drift_2h_old"), vc.real("new_fine_drift"), vc.real("level0_chain_drift")
+        MCP = "rpylib.process.markovchain.markovchain:MarkovChainProcess"
+        old_driver_fine = vc.obj(MCP, _drift_tag=d_h)
+        new_driver_fine = vc.obj(MCP, _drift_tag=d_new)
+        driver = vc.obj(CM + "CouplingMarkovChain", grid=vc.obj(SP + "CTMCGrid", h=h), fine_process=old_driver_fine)
+        level0_chain = vc.obj(MCP, _drift_tag=d_level0)
+        sde_fine = vc.obj("rpylib.process.markovchain.markovchainsde:MarkovChainSDE", markov_chain=level0_chain)
+        model = vc.obj("rpylib.model.levydrivensde.levydrivensde:LevyDrivenSDEModel", driver=vc.obj(LM + "LevyModel"))
+        spots = vc.real("spots")
+        o = vc.obj(CS + "CouplingSDE", level=lvl, model=model, driver_coupling_process=driver, fine_process=sde_fine, mc_drift_h=d_h, mc_drift_2h=d_2h,
+                   epsilon=vc.real("eps_old"), _process_representation=None, _spots=spots)
+        pm = vc.obj("rpylib.montecarlo.path:MCPath", deterministic_path=None)
+        pms = [pm]
+        g.update(h=h, beta=beta, lvl=lvl, d_h=d_h, d_new=d_new, new_driver_fine=new_driver_fine, pms=pms, spots=spots, mcp=vc.int("mc_paths"))
+        return dict(self=o, mc_paths=g["mcp"], path_managers=pms, product=vc.obj("rpylib.product.product:Product"))
+
+    def ensures(self, result, self_=None, path_managers=None, **kw):
+        from pyvc import ctx
+        from pyvc.lib import m_pow
+        g = ctx.PATH.ghost
+        f = self_.fields
+        log = g.get("log", [])
+        kinds = [e[0] for e in log]
+        eps = m_pow(g["h"] / 2, g["beta"])
+        out = {"level-advances": f["level"] == g["lvl"] + 1,
+               "coarse-driver-drift-is-the-previous-fine-driver-drift": f["mc_drift_2h"] == g["d_h"],
+               "fine-driver-drift-is-the-new-fine-chain's": f["mc_drift_h"] == g["d_new"],
+               "time-step-cap-is-(h/2)^beta": f["epsilon"] == eps,
+               "driver-coupling-advances-exactly-once-without-path-managers-with-the-new-cap":
+                   kinds.count("driver.next_level") == 1 and log[kinds.index("driver.next_level")][1] is None
+                   and (log[kinds.index("driver.next_level")][2] == eps),
+               "one-path-manager-appended": len(path_managers) == 2}
+        if len(path_managers) == 2:
+            it = ctx.INTERP
+            both = it.call(path_managers[-1].fields["deterministic_path"], [np.array([ctx.PATH.fresh("t", "r")], dtype=object)], {})
+            out["deterministic-part-is-the-initial-value-for-both-components"] = And(both[0] == g["spots"], both[1] == g["spots"])
+        return out
+
+
+UNITS = [ProbabilityToRight(), CouplingState(), Telescoping(), DiffusionCoupling(), NextLevel(), CopulaCouplingState(), SDENextLevel()]
 ASSUMPTIONS = ["A1: floats are mathematical reals", "A6: the model's mass is an additive non-negative interval function (C09/C12)",
                "the fine grid is the refinement of the coarse grid (C13 contract of refine) and rates are cell masses (C01)",
                "expected-payoff telescoping E[P_l^coarse] = E[P_{l-1}^fine] follows from equal laws (not mechanised)"]
 TRUSTED_BASE = ["z3 5.1", "pyvc interpreter + numpy models"]
-BOUNDED = []
+
+
+class TelescopingBattery:
+    """B2 (native, bounded): real CouplingMarkovChain objects taken through levels 1..3 (next_level on ONE object, as the
+    multilevel engine does); at each level the transfer probability of every odd fine state is measured by bisection on
+    the coupling uniform fed to the real coupling_state, and  sum_x rate_f(x) P(x -> y)  is compared with the previous
+    level's rate of y.  Grids: uniform and probability-step (non-arithmetic middle); models: HEM, Merton."""
+    name = "bounded:telescoping-battery"
+    tier = "quick"
+
+    def run(self, tier, seed):
+        import copy
+        from contracts import battery
+        from rpylib.grid.spatial import CTMCUniformGrid, CTMCGridProbabilityStep
+        from rpylib.process.coupling.couplingmarkovchain import CouplingMarkovChain
+        from rpylib.distribution.sampling import SamplingMethod
+        from rpylib.distribution.samplingfactory import create_q_vector
+        from rpylib.product.product import Product
+        from rpylib.product.underlying import Spot
+        from rpylib.product.payoff import Forward
+
+        class U:
+            u = 0.5
+
+            def sample(self, *a, **k):
+                return self.u
+
+            def reset_sampling_cost(self):
+                pass
+
+            def cost(self):
+                return 0
+        ev, viol, samples = 0, {}, []
+        product = Product(payoff_underlying=Spot(), payoff=Forward(strike=100.0), maturity=1.0)
+        levels = 3 if tier == "thorough" else 2
+        for mname, m in battery.models(("hem", "merton")).items():
+            for gname, mk in (("uniform", lambda: CTMCUniformGrid(h=0.1, model=m)),
+                              ("probability-step", lambda: CTMCGridProbabilityStep(h=0.1, model=m, minimum_probability_step=0.1))):
+                np.random.seed(7)
+                grid = mk()
+                cp = CouplingMarkovChain(model=m, method=SamplingMethod.INVERSION, grid=grid)
+                cp.initialisation(product=product)
+                uni = U()
+                q_prev = create_q_vector(cp.fine_process.model.levy_triplet.nu, cp.grid)
+                for level in range(1, levels + 1):
+                    cp.next_level(mc_paths=1, path_managers=None, product=product)
+                    cp.uniform = uni
+                    sim = cp._path_coupling_simulation
+                    g = cp.grid
+                    ax, o = g.axes[0], g.origin_coordinate.value
+                    q_f = create_q_vector(cp.fine_process.model.levy_triplet.nu, g)
+                    induced = np.zeros(len(q_prev))
+                    for i in range(len(ax)):
+                        if i == o or q_f[i] <= 0:
+                            continue
+                        inc = i - o
+                        if i % 2 == 0:
+                            uni.u = 0.5
+                            v = sim.coupling_state(inc)
+                            if abs(v - ax[i]) > 1e-14:
+                                viol.setdefault("copy", {"obligation": f"{self.name}::coarse-states-copied-unchanged", "bounded": self.name,
+                                                         "witness": {"model": mname, "grid": gname, "level": level, "fine_index": i, "value": float(v)}})
+                            induced[i // 2] += q_f[i]
+                            continue
+                        lo_, hi_ = 0.0, 1.0
+                        for _ in range(36):
+                            uni.u = 0.5 * (lo_ + hi_)
+                            v = sim.coupling_state(inc)
+                            if abs(v - ax[i + 1]) < 1e-14:
+                                lo_ = uni.u
+                            else:
+                                hi_ = uni.u
+                        p_right = 0.5 * (lo_ + hi_)
+                        induced[(i + 1) // 2] += q_f[i] * p_right
+                        induced[(i - 1) // 2] += q_f[i] * (1 - p_right)
+                    oc = o // 2
+                    ev += 1
+                    err = max(abs(induced[j] - q_prev[j]) / max(q_prev[j], 1e-12) for j in range(len(q_prev)) if j != oc)
+                    info = {"model": mname, "grid": gname, "level": level, "max_relative_rate_error": float(err), "coarse_states": len(q_prev)}
+                    if len(samples) < 4:
+                        samples.append(info)
+                    if err > 1e-6:
+                        viol.setdefault("rates", {"obligation": f"{self.name}::induced-coarse-rates-are-the-previous-level's-rates", "bounded": self.name, "witness": info})
+                    q_prev = q_f
+        return {"name": self.name, "evaluations": ev, "distinct_nontrivial": ev, "violations": list(viol.values()), "samples": samples,
+                "bound": f"HEM, Merton x uniform/probability-step (h=0.1) x levels 1..{levels}"}
+
+    def replay(self, rec):
+        r = self.run("thorough", 0)
+        hit = [v for v in r["violations"] if v["obligation"] == rec["obligation"]]
+        return (bool(hit), hit[0]["witness"] if hit else {})
+
+
+BOUNDED = [TelescopingBattery()]
